@@ -3,7 +3,7 @@
    mesh containers are written and parsed by pynrrd / h5py / json / trimesh and are covered by the correspondence run only (partial). *)
 From Coq Require Import List ZArith Bool.
 Import ListNotations.
-From Navis Require Import model.Precomputed proofs.PrecomputedProofs.
+From Navis Require Import model.Precomputed proofs.PrecomputedProofs model.Fmt proofs.FmtProofs.
 Open Scope Z_scope.
 
 Theorem C14_u32_roundtrip : forall w, word_ok w = true ->
@@ -41,3 +41,38 @@ Print Assumptions C14_policy_raise.
 Theorem C14_policy_all_valid : forall files ns, files = map FOk ns -> read_many true files = Some ns.
 Proof. exact policy_all_valid. Qed.
 Print Assumptions C14_policy_all_valid.
+
+(* ---- attributes parsed from the file name as the fmt pattern prescribes (model/Fmt.v = BaseReader.parse_filename) ---- *)
+(* the matcher answers only with a genuine decomposition of the file name ... *)
+Theorem C14_fmt_match_sound : forall toks s gs, search toks s = Some gs ->
+  length gs = ngroups toks /\ Forall nonl_str gs /\ exists pre post, s = pre ++ render toks gs ++ post.
+Proof. exact search_sound. Qed.
+Print Assumptions C14_fmt_match_sound.
+(* ... and raises ("unable to match") only when the name has no decomposition at all *)
+Theorem C14_fmt_match_complete : forall toks pre gs post, length gs = ngroups toks -> Forall nonl_str gs ->
+  search toks (pre ++ render toks gs ++ post) <> None.
+Proof. exact search_complete. Qed.
+Print Assumptions C14_fmt_match_complete.
+(* a name rendered from separator-free values is parsed back to exactly those values, whatever ignored fields the pattern has *)
+Theorem C14_fmt_roundtrip : forall sep toks vals, wellsep sep toks = true -> length vals = ngroups toks -> Forall (sepfree sep) vals ->
+  search toks (render toks vals) = Some vals.
+Proof. exact search_roundtrip. Qed.
+Print Assumptions C14_fmt_roundtrip.
+Theorem C14_fmt_tokenize_show : forall toks, wf_toks toks -> tokenize (show toks) = toks.
+Proof. exact tokenize_show'. Qed.
+Print Assumptions C14_fmt_tokenize_show.
+(* every declared name receives the (converted) text of its own group, not of a neighbour *)
+Theorem C14_fmt_own_group : forall bs gs d d' i b g n t, assign bs gs d = Some d' ->
+  nth_error bs i = Some b -> nth_error gs i = Some g -> In (FName n t) (fields_of b) ->
+  (forall t', In (FName n t') (fields_of b) -> t' = t) ->
+  (forall j b' t', (i < j)%nat -> nth_error bs j = Some b' -> ~ In (FName n t') (fields_of b')) ->
+  dget d' n = conv t g.
+Proof. exact assign_own_group. Qed.
+Print Assumptions C14_fmt_own_group.
+Theorem C14_fmt_parse_rendered : forall sep toks vals dir,
+  wf_toks toks -> wellsep sep toks = true -> length vals = ngroups toks -> Forall (sepfree sep) vals ->
+  Forall (fun c => c <> 47) (render toks vals) ->
+  parse_filename (show toks) (dir ++ 47 :: render toks vals) = assign (bodies toks) vals [(s_file, VStr (render toks vals))]
+  /\ parse_filename (show toks) (render toks vals) = assign (bodies toks) vals [(s_file, VStr (render toks vals))].
+Proof. exact parse_rendered. Qed.
+Print Assumptions C14_fmt_parse_rendered.
